@@ -20,7 +20,8 @@ ASSUMPTIONS = ['vmon/model.py range semantics: an exclusive omitted bound '
 
 _OMIT = ('<omitted>',)
 
-MUST = ['min_after_leaf_last', 'max_eq_separator', 'excl_omitted_min_one_key_first_leaf',
+MUST = ['min_after_leaf_last', 'max_eq_separator', 'stale-separator-tree',
+        'max_eq_stale_sep', 'excl_omitted_min_one_key_first_leaf',
         'excl_omitted_max_one_key_last_leaf', 'single_interior_child_root',
         'empty_result_across_leaves', 'neg_index_multileaf', 'slice_multileaf']
 
@@ -126,6 +127,26 @@ def run_shard(spec, rec):
             ls = corpus.grow_container(fam, kind, impl, rng, sizes=sizes,
                                        via_subclass=bool(ci % 2),
                                        values=vals)
+            if is_tree and ci % 3 == 1 and len(ls.m) > 1:
+                # the same contents in a VALID tree whose separators are only
+                # lower bounds (as trees written by older versions, or after
+                # conflict resolution, may have): rebuilt through
+                # __setstate__
+                from .. import surgeon
+                try:
+                    d0 = surgeon.describe(ls.c, is_mapping)
+                    d1, nch = surgeon.loosen_separators(d0, ls.g.universe,
+                                                        rng)
+                    if nch:
+                        t2 = surgeon.build(d1, fam, kind, impl)
+                        t2._check()
+                        ls.c = t2
+                        rec.ev(impl + ':stale-separator-tree')
+                except Exception as e:
+                    rec.violation('surgeon-rebuild-failed', impl=impl,
+                                  family=fam.name, kind=kind,
+                                  detail='%s: %s' % (type(e).__name__, e))
+                    continue
             check_container(fam, kind, impl, ls, rng, rec, quick)
 
 
